@@ -1,6 +1,8 @@
 package metadata
 
 import (
+	"fmt"
+	"strconv"
 	"strings"
 
 	"github.com/llir/llvm/internal/enc"
@@ -48,6 +50,19 @@ func dwarfTagString(tag enum.DwarfTag) string {
 	s := tag.String()
 	if strings.HasPrefix(s, "DwarfTag(") && strings.HasSuffix(s, ")") {
 		return s[len("DwarfTag(") : len(s)-len(")")]
+	}
+	return s
+}
+
+// enumString returns the LLVM syntax of an enum value of a specialized metadata
+// field: the keyword if the value has one, the number otherwise (LLVM accepts
+// and prints numbers for values outside its tables).
+func enumString(v fmt.Stringer) string {
+	s := v.String()
+	if i := strings.IndexByte(s, '('); i > 0 && strings.HasSuffix(s, ")") {
+		if _, err := strconv.ParseUint(s[i+1:len(s)-1], 10, 64); err == nil {
+			return s[i+1 : len(s)-1]
+		}
 	}
 	return s
 }
